@@ -9,6 +9,7 @@ import (
 	"os"
 	"runtime"
 	"sort"
+	"strings"
 	"sync"
 	"sync/atomic"
 	"testing"
@@ -367,6 +368,13 @@ func drawCase(t *rapid.T) *Case {
 }
 
 func replay(cf *evid.CaseFile) error {
+	if cf.Sub == "huge" {
+		var c HugeCase
+		if err := evid.Decode(cf.Gob, &c); err != nil {
+			return err
+		}
+		return hugeOracle(&c)
+	}
 	var c Case
 	if err := evid.Decode(cf.Gob, &c); err != nil {
 		return err
@@ -378,12 +386,152 @@ func replay(cf *evid.CaseFile) error {
 	return err
 }
 
+// HugeCase: one value carried by EVERY row of a very long input (more rows
+// than any buffer a writer might fold its row ids through), fed by several
+// goroutines; the rows are generated on the fly and the expected counts are
+// arithmetic.
+type HugeCase struct {
+	Rows, Goroutines int
+	Big              bool
+}
+
+func (c *HugeCase) Summary() string {
+	return fmt.Sprintf("%d rows that all carry k=same (plus m=i%%3), fed by %d goroutines to the %s writer", c.Rows, c.Goroutines, map[bool]string{true: "big", false: "in-memory"}[c.Big])
+}
+
+func hugeOracle(c *HugeCase) error {
+	dir := fix.CaseDir()
+	defer os.RemoveAll(dir)
+	out := fix.TempPath(dir, "huge") + ".updog"
+	var w adder
+	if c.Big {
+		tdb, err := bbolt.Open(out+".tmp", 0o600, &bbolt.Options{NoSync: true})
+		if err != nil {
+			return fmt.Errorf("INFRA: %v", err)
+		}
+		defer tdb.Close()
+		db, err := bbolt.Open(out, 0o644, nil)
+		if err != nil {
+			return fmt.Errorf("INFRA: %v", err)
+		}
+		defer db.Close()
+		bw, err := updog.NewBigIndexWriter(db, tdb)
+		if err != nil {
+			return err
+		}
+		w = bw
+		defer func() {
+			if cl, ok := any(bw).(interface{ Close() error }); ok {
+				cl.Close()
+			}
+		}()
+	} else {
+		w = updog.NewIndexWriter(out)
+	}
+	var next atomic.Int64
+	var mcount [3]atomic.Int64
+	errs := make([]error, c.Goroutines)
+	var wg sync.WaitGroup
+	for g := 0; g < c.Goroutines; g++ {
+		wg.Add(1)
+		go func(g int) {
+			defer wg.Done()
+			errs[g] = fix.Safe(func() error {
+				for {
+					i := next.Add(1) - 1
+					if i >= int64(c.Rows) {
+						return nil
+					}
+					if _, err := w.AddRow(map[string]string{"k": "same", "m": fmt.Sprint(i % 3)}); err != nil {
+						return fmt.Errorf("AddRow %d: %v", i, err)
+					}
+					mcount[i%3].Add(1)
+				}
+			})
+		}(g)
+	}
+	wg.Wait()
+	for _, e := range errs {
+		if e != nil {
+			return e
+		}
+	}
+	if err := fix.Safe(w.Flush); err != nil {
+		return fmt.Errorf("Flush: %v", err)
+	}
+	cp, err := fix.CopyFile(dir, out)
+	if err != nil {
+		return err
+	}
+	idx, _, err := fix.Open(cp, fix.OpenCfg{CacheCap: -1})
+	if err != nil {
+		return fmt.Errorf("open flushed index: %v", err)
+	}
+	defer fix.Safe(idx.Close)
+	same := model.Eq("k", "same")
+	type probe struct {
+		e    model.Expr
+		want int64
+	}
+	probes := []probe{{same, int64(c.Rows)}, {model.Not(same), 0}, {model.Not(model.Eq("m", "none")), int64(c.Rows)}}
+	for v := 0; v < 3; v++ {
+		mv := model.Eq("m", fmt.Sprint(v))
+		probes = append(probes, probe{mv, mcount[v].Load()}, probe{model.And(same, mv), mcount[v].Load()}, probe{model.And(model.Not(same), mv), 0})
+	}
+	for _, p := range probes {
+		res, err := fix.Exec(idx, fix.NewQuery(p.e, nil))
+		if err != nil {
+			return fmt.Errorf("%s: %v", p.e, err)
+		}
+		if int64(res.Count) != p.want {
+			return fmt.Errorf("%d rows were added, every one with k=same and m=i%%3: count(%s) is %d, want %d", c.Rows, p.e, res.Count, p.want)
+		}
+	}
+	res, err := fix.Exec(idx, fix.NewQuery(same, []string{"m"}))
+	if err != nil {
+		return err
+	}
+	got := fix.FromResult(res)
+	if len(got.Groups) != 3 {
+		return fmt.Errorf("count(k=same) grouped by m: %d groups, want 3", len(got.Groups))
+	}
+	for _, g := range got.Groups {
+		if len(g.Vals) != 1 || len(g.Vals[0]) != 1 || g.Vals[0][0] < '0' || g.Vals[0][0] > '2' || int64(g.Count) != mcount[g.Vals[0][0]-'0'].Load() {
+			return fmt.Errorf("count(k=same) grouped by m: group %v has count %d", g.Vals, g.Count)
+		}
+	}
+	return nil
+}
+
+func runHuge(t *testing.T, c *HugeCase) {
+	evid.Inflight(prop, "huge", c, c.Summary())
+	err := hugeOracle(c)
+	evid.ClearInflight(prop, "huge")
+	if err != nil && strings.HasPrefix(err.Error(), "INFRA:") {
+		panic(err.Error())
+	}
+	evid.Note("rows_added_in_huge_single_value_inputs", int64(c.Rows))
+	evid.Case(true, c.Summary(), "huge-single-value")
+	if err != nil {
+		fix.Fail(t, prop, "huge", c, c.Summary(), err)
+	}
+}
+
 func TestQuick(t *testing.T) {
+	runHuge(t, &HugeCase{Rows: 1<<21 + 70001, Goroutines: 8, Big: true})
 	fix.Pinned(t, prop, replay)
 	fix.Check(t, "addrow", 60, func(rt *rapid.T) { run(rt, drawCase(rt)) })
 }
 
 func TestThorough(t *testing.T) {
+	switch shard, _ := evid.Shard(); shard {
+	case 0:
+		runHuge(t, &HugeCase{Rows: 1<<21 + 70001, Goroutines: 8, Big: true})
+	case 1:
+		runHuge(t, &HugeCase{Rows: 1<<22 + 3, Goroutines: 3, Big: true})
+	case 2:
+		runHuge(t, &HugeCase{Rows: 1<<22 + 3, Goroutines: 6, Big: false})
+	}
 	if shard, _ := evid.Shard(); shard == 0 {
 		fix.Pinned(t, prop, replay)
 	}
